@@ -247,6 +247,21 @@ func newGPOS(table tables.Layout) (GPOS, error) {
 			if subtables[j].Cov() == nil {
 				return GPOS{}, errors.New("GPOS: lookup subtable without coverage")
 			}
+			// same thing for the second coverage of the mark attachment subtables
+			switch st := subtables[j].(type) {
+			case tables.MarkBasePos:
+				if st.BaseCoverage == nil {
+					return GPOS{}, errors.New("GPOS: MarkBasePos subtable without base coverage")
+				}
+			case tables.MarkLigPos:
+				if st.LigatureCoverage == nil {
+					return GPOS{}, errors.New("GPOS: MarkLigPos subtable without ligature coverage")
+				}
+			case tables.MarkMarkPos:
+				if st.Mark2Coverage == nil {
+					return GPOS{}, errors.New("GPOS: MarkMarkPos subtable without mark2 coverage")
+				}
+			}
 
 			// sanitize each lookup
 			switch subtable := subtable.(type) {
